@@ -53,6 +53,10 @@ chk.assumptions = [
     'disregistry tail bound 2*(2/pi)*atan(h/x_end) (isotropic screw deficit is (2/pi)*atan(h/(2 x_end)); factor 4 covers '
     'edge terms and anisotropy), columns outside the common x-range of the two planes are not compared (clamped extrapolation)',
     'a "Deleted atom mismatch" refusal is accepted only when the predicted duplicate misfit |b| b_e/(2 L_m) exceeds the cutoff',
+    'periodic array: the returned base_system is compared with the untrimmed crystal modulo the three periods of the (fully '
+    'periodic) reference box; displacements are judged from the returned reference positions',
+    'sizes: sizemults is passed as list and as tuple (docstring: "sizemults : tuple"); a list re-used for further calls must '
+    'still be honoured (same size); whether the generator modifies the caller\'s list is not judged by itself',
 ]
 
 AX = {'x': np.array([1.0, 0, 0]), 'y': np.array([0, 1.0, 0]), 'z': np.array([0, 0, 1.0])}
